@@ -62,7 +62,8 @@ Theorem C02_layout : forall fuel c segs r1 r2,
     p2fold fuel (seg_t sg') (items sg') (Ok (c2, address sg', [])) = Ok (c2', fin, frag) /\
     (match seg_t sg with SCode => p2_code r2 | _ => p2_eeprom r2 end) = (before ++ frag ++ after)%list /\
     N.of_nat (length before) = unit_of (seg_t sg) * address sg' /\
-    N.of_nat (length frag) = unit_of (seg_t sg) * (fin - address sg').
+    N.of_nat (length frag) = unit_of (seg_t sg) * (fin - address sg') /\
+    (labels c2 = labels (p1_ctx r1) /\ equs c2 = equs (p1_ctx r1) /\ defines c2 = defines (p1_ctx r1)) /\ dev c2 = dev c.
 Proof. exact layout. Qed.
 Print Assumptions C02_layout.
 
